@@ -38,8 +38,8 @@ def word(rng, extra=""):
     return "".join(rng.choice(alphabet) for _ in range(rng.randrange(1, 9)))
 
 
-def text(rng, uniq, special=True):
-    parts = [word(rng, " %=" if special else "") .strip() or "x" for _ in range(rng.randrange(1, 4))]
+def text(rng, uniq, special=True, dots=False):
+    parts = [word(rng, (" %=" if special else "") + ("." if dots else "")).strip() or "x" for _ in range(rng.randrange(1, 4))]
     t = " ".join(parts)
     t = " ".join(t.split())          # no leading / trailing / double blanks (INI trimming is lexical)
     t = t.replace(" ;", ";").replace("= ", "=")
@@ -152,7 +152,7 @@ def gen_doc(rng, nobj=12, features=None):
         else:
             f = {}
         dt = f.get("dt", rng.choice(ALL_TYPES))
-        name = text(rng, f"o{uniq}")
+        name = text(rng, f"o{uniq}", dots=kind in ("var", "var7", "dom") and rng.random() < 0.3)
         obj = {"idx": idx, "name": name, "storage": "", "compact": -1, "namelist": [], "members": [], "var": NONE,
                "idxcase": rng.choice(["u", "l"])}
         if kind in ("var", "var7", "dom"):
@@ -172,7 +172,8 @@ def gen_doc(rng, nobj=12, features=None):
             for s in subs:
                 mdt = dt if kind == "arr" else rng.choice(ALL_TYPES)
                 obj["members"].append({"sub": s, "spell": rng.choice(["sub", "Sub"]),
-                                       "var": gen_var(rng, text(rng, f"m{uniq}_{s}"), mdt, in_force, f if s == subs[0] else None)})
+                                       "var": gen_var(rng, text(rng, f"m{uniq}_{s}", dots=rng.random() < 0.3), mdt, in_force,
+                                                      f if s == subs[0] else None)})
         else:
             obj["otype"] = 8
             obj["compact"] = rng.randrange(1, 6)
